@@ -92,3 +92,17 @@ func (a *Authenticator) verifEv(ev string, neg *SecurityNegotiation, kv ...any) 
 	}
 	sink(rec)
 }
+
+// VerifGate, when set, is called at the start of SessionEntry.IsExpired (before
+// the entry's own lock is taken) with the entry's id: a scheduler gate. A
+// harness blocks in it to hold one goroutine at the expiry check of
+// /verif/spec/SessionCacheLocks.tla while another goroutine's cache operation
+// runs, which turns one interleaving of the lock model into a deterministic
+// schedule of the real code.
+var VerifGate atomic.Pointer[func(point, id string)]
+
+func verifGate(point, id string) {
+	if g := VerifGate.Load(); g != nil {
+		(*g)(point, id)
+	}
+}
